@@ -1,0 +1,14 @@
+//go:build verif
+
+package statsd
+
+import "net"
+
+// verifBatchReader: a simulated socket that implements BatchReader itself is read in batches, the
+// way a real UDP socket is through recvmmsg (the generic reader returns one datagram per call).
+func verifBatchReader(conn net.PacketConn) BatchReader {
+	if br, ok := conn.(BatchReader); ok {
+		return br
+	}
+	return nil
+}
